@@ -896,7 +896,10 @@ func (c *Ctx) execFor(env *Env, x *ast.ForStmt, st *State, label string) []*Stat
 			return
 		}
 		for k, inv := range spec.Invs {
-			g := ie.evalBool(inv.Expr, s)
+			g, fits := c.evalLoopClause(ie, inv, s)
+			if !fits {
+				continue
+			}
 			c.curGroup = inv.Group
 			c.addObl(s, fmt.Sprintf("loop%d/inv#%d/%s", n, k, phase), "inv", g, c.e.pos(x.Pos()), "invariant "+inv.Text, nil)
 			c.curGroup = ""
@@ -906,7 +909,9 @@ func (c *Ctx) execFor(env *Env, x *ast.ForStmt, st *State, label string) []*Stat
 	c.havocLoopTargets(env, st, []ast.Node{x.Cond, x.Post, x.Body})
 	if spec != nil {
 		for _, inv := range spec.Invs {
-			c.assumeGrouped(st, ie.evalBool(inv.Expr, st), inv.Group)
+			if g, fits := c.evalLoopClause(ie, inv, st); fits {
+				c.assumeGrouped(st, g, inv.Group)
+			}
 		}
 	}
 	var variant string
@@ -961,7 +966,10 @@ func (c *Ctx) loopExits(env *Env, spec *LoopSpec, n int, pos token.Pos, out []*S
 	ie := c.invEnv(env, pos, nil)
 	for ei, s := range out {
 		for k, ex := range spec.Exits {
-			g := ie.evalBool(ex.Expr, s)
+			g, fits := c.evalLoopClause(ie, ex, s)
+			if !fits {
+				continue
+			}
 			c.curGroup = ex.Group
 			c.addObl(s, fmt.Sprintf("loop%d/exit#%d@e%d", n, k, ei), "inv", g, c.e.pos(at), "exit "+ex.Text, nil)
 			c.curGroup = ""
@@ -1038,7 +1046,10 @@ func (c *Ctx) execRange(env *Env, x *ast.RangeStmt, st *State, label string) []*
 		e2 := c.invEnv(env, pos, mkExtra(i))
 		e2.loopPre = preLoop
 		for k, inv := range spec.Invs {
-			g := e2.evalBool(inv.Expr, s)
+			g, fits := c.evalLoopClause(e2, inv, s)
+			if !fits {
+				continue
+			}
 			c.curGroup = inv.Group
 			c.addObl(s, fmt.Sprintf("loop%d/inv#%d/%s", n, k, phase), "inv", g, c.e.pos(x.Pos()), "invariant "+inv.Text, nil)
 			c.curGroup = ""
@@ -1063,7 +1074,9 @@ func (c *Ctx) execRange(env *Env, x *ast.RangeStmt, st *State, label string) []*
 		e2 := c.invEnv(env, pos, mkExtra(i))
 		e2.loopPre = preLoop
 		for _, inv := range spec.Invs {
-			c.assumeGrouped(st, e2.evalBool(inv.Expr, st), inv.Group)
+			if g, fits := c.evalLoopClause(e2, inv, st); fits {
+				c.assumeGrouped(st, g, inv.Group)
+			}
 		}
 	}
 	fr := c.frame()
@@ -1143,7 +1156,10 @@ func (c *Ctx) execRangeMap(env *Env, x *ast.RangeStmt, st *State, label string, 
 		e2 := c.invEnv(env, pos, mk(visited, count))
 		e2.visitedSet = visited
 		for k, inv := range spec.Invs {
-			g := e2.evalBool(inv.Expr, sx)
+			g, fits := c.evalLoopClause(e2, inv, sx)
+			if !fits {
+				continue
+			}
 			c.curGroup = inv.Group
 			c.addObl(sx, fmt.Sprintf("loop%d/inv#%d/%s", n, k, phase), "inv", g, c.e.pos(x.Pos()), "invariant "+inv.Text, nil)
 			c.curGroup = ""
@@ -1167,7 +1183,9 @@ func (c *Ctx) execRangeMap(env *Env, x *ast.RangeStmt, st *State, label string, 
 		e2 := c.invEnv(env, pos, mk(visited, count.T))
 		e2.visitedSet = visited
 		for _, inv := range spec.Invs {
-			c.assumeGrouped(st, e2.evalBool(inv.Expr, st), inv.Group)
+			if g, fits := c.evalLoopClause(e2, inv, st); fits {
+				c.assumeGrouped(st, g, inv.Group)
+			}
 		}
 	}
 	fr := c.frame()
